@@ -91,6 +91,9 @@ inline std::vector<InFile> gen_files(Tape& t, size_t maxFiles) {
 	for (size_t i = 0; i < n; ++i) {
 		InFile f;
 		f.name = gen_name(t);
+		// one later name in four extends an earlier one (possibly in another letter case): prefix-related names sit next to each other in the
+		// sorted index and are where a lookup or comparison that stops at the shorter length goes wrong
+		if (i && t.below(4) == 0) { const std::string& base = fs[t.below(fs.size())].name; if (base.size() < 40) f.name = case_variant(base, t.u8()) + t.pick<std::string>({".txt", ".old", "x", "_", "0", ".", " "}); }
 		bool clash;
 		do { clash = false; for (auto& g : fs) if (ieq(g.name, f.name)) { clash = true; f.name += char('0' + i % 10); } } while (clash);
 		f.dir = dirs[t.below(4)];
